@@ -265,8 +265,8 @@ func (rc *runCtx) groups() map[string]*groupStat {
 		} else {
 			s.Bad = append(s.Bad, r)
 		}
-		if r.Seconds > s.MaxSec {
-			s.MaxSec = r.Seconds
+		if r.WinSecs > s.MaxSec {
+			s.MaxSec = r.WinSecs
 		}
 		if r.Obl.Bounded {
 			s.Bounded = true
@@ -316,13 +316,37 @@ func baselineCmd(args []string) int {
 	}
 	rc.solve(*timeout, false)
 	gs := rc.groups()
+	// stability: lemmas (nonlinear arithmetic) and anything that needed more than 0.5 s are re-run with two more solver seeds
+	var again []*vc.Obligation
+	for _, r := range rc.results {
+		if !r.Obl.Cover && (r.Obl.Kind == "lemma" || r.WinSecs > 0.5) {
+			again = append(again, r.Obl)
+		}
+	}
+	for _, seed := range []int{1, 2} {
+		vc.SolverSeed = seed
+		res := rc.ex.SolveAll(again, filepath.Join(rc.outDir, fmt.Sprintf("seed%d", seed)), *timeout, 16, false)
+		for _, r := range res {
+			g := gs[groupOf(r.Obl.Name)]
+			if g == nil {
+				continue
+			}
+			if r.Status != "unsat" {
+				g.Bad = append(g.Bad, r)
+			}
+			if r.WinSecs > g.MaxSec {
+				g.MaxSec = r.WinSecs
+			}
+		}
+	}
+	vc.SolverSeed = 0
 	b := &Baseline{Property: *prop, Groups: map[string]*BaselineGroup{}}
 	var names []string
 	for n := range gs {
 		names = append(names, n)
 	}
 	sort.Strings(names)
-	admit := timeout.Seconds() * 0.3
+	admit := 3.0 // seconds: only obligations decided well inside the quick timeout (20 s) are claimed
 	for _, n := range names {
 		g := gs[n]
 		if g.Cover {
@@ -373,7 +397,7 @@ func checkCmd(args []string) int {
 		fmt.Println("exovc: machinery error:", err)
 		return 2
 	}
-	timeout := 10 * time.Second
+	timeout := 20 * time.Second
 	cross := false
 	if *tier == "thorough" {
 		timeout = 60 * time.Second
